@@ -1296,7 +1296,9 @@ fn parse(input: Span) -> IResult<Span, Positioned<InlineOperator>> {
             opt(tag("regex").precedes(multispace1)),
             with_pos(req_quoted_string),
             opt(multispace1.precedes(with_pos(pair(tag("from"), multispace1).precedes(expr)))),
-            opt(with_pos(tag("as").preceded_by(multispace1).precedes(var_list))),
+            opt(with_pos(
+                tag("as").delimited_by(multispace1).precedes(var_list),
+            )),
             opt(multispace1.precedes(with_pos(pair(tag("from"), multispace1).precedes(expr)))),
             opt(tag("nodrop").preceded_by(multispace1)).map(|nd| nd.is_some()),
             opt(tag("noconvert").preceded_by(multispace1)).map(|nd| nd.is_some()),
